@@ -44,7 +44,7 @@ def plan(seed, tier):
             {
                 "world": GEN_WORLD,
                 "fn": "gen_programs",
-                "payload": {"seed": "%s/gen/%d" % (seed, g), "count": nprog // ngen, "tier": tier},
+                "payload": {"seed": "%s/gen/%d" % (seed, g), "count": nprog // ngen, "tier": tier, "corpus": g < (2 if tier == "quick" else 16)},
                 "timeout": 300,
             }
         )
@@ -99,6 +99,10 @@ def gen_programs(payload):
     r = W.rng(payload["seed"])
     out = []
     modes = list(MODES)
+    if payload.get("corpus"):
+        for prog, family in program.corpus(r):
+            for mode in modes:
+                out.append({"program": prog, "family": family, "mode": mode, "workload": "corpus"})
     for n in range(payload["count"]):
         if r.random() < 0.2:
             prog, family = program.gen_gauss(r)
